@@ -1,13 +1,23 @@
-(* Props/C24.v — xlsx export then import preserves the workbook: THE STRING-ESCAPING CODEC PART ONLY
-   (escape_xml on export, the XML parser's entity resolution, decode_xlsx_escapes on import).
-   The rest of C24 (cell types, formulas, styles, container) is not claimed here yet.
-   Statements only; every proof is [exact <lemma>] into Codec/XmlEscapeProofs.v.
+(* Props/C24.v — xlsx export then import preserves the workbook.
+   PROVED here (three codecs the round trip is made of):
+     (a) the string-escaping codec: escape_xml on export, the XML parser's entity resolution,
+         decode_xlsx_escapes on import                                   (C24_escape_...)
+     (b) the cell-type codec: which t= / <v> / <f> / cm encoding the writer chooses for every
+         Cell x FormulaValue kind and what the reader makes of it        (C24_cell_...)
+     (c) formula text, by reduction: the C09 round-trip theorem at the xlsx printer mode with the
+         name tables of C23, and the character layer (escaped, never decoded) (C24_formula_...)
+   ORACLE ONLY (harness/c24, whole-workbook comparison): styles.xml, theme, sheet properties,
+   rows / columns, defined names, links, conditional formats, tables, doc props, the container.
+   Statements only; every proof is [exact <lemma>].
 
    Full statement:  forall s, roundtrip s = Ok s   where
      roundtrip s = decode (xml_unescape (escape s)).
    The faithful model REFUTES it (C24_escape_refuted): a literal `_xHHHH` immediately followed by a
    control character forms a new `_xHHHH_` pattern with the '_' of the escaped control character. *)
 From IronCalc Require Import Base.Prelude Codec.XmlEscape Codec.XmlEscapeProofs.
+From IronCalc Require Import Codec.RefA1 Syntax.Token Syntax.Ast Syntax.Printer Syntax.Parser Syntax.Shape.
+From IronCalc Require Import Xlsx.CellCodec Xlsx.CellCodecProofs Xlsx.FormulaText.
+From IronCalc Require Generated.Tables_c23 Codec.Names.
 
 Theorem C24_escape_refuted :
   exists s, forallb text_char_ok s = true /\ roundtrip s <> Ok s.
@@ -52,3 +62,110 @@ Example C24_escape_partial_nonvacuous :
   collides [95; 120; 48; 48; 52; 49; 95] = false /\ roundtrip [95; 120; 48; 48; 52; 49; 95] = Ok [95; 120; 48; 48; 52; 49; 95]
   /\ collides [95; 120; 68; 56; 48; 48; 1] = false /\ roundtrip [95; 120; 68; 56; 48; 48; 1] = Ok [95; 120; 68; 56; 48; 48; 1].
 Proof. vm_compute. repeat split; reflexivity. Qed.
+
+(* ================= (b) the cell-type codec ================= *)
+(* [num] is f64 with its two Rust primitives; their law is an explicit premise (checked by the
+   harness on every generated number). [formula] is an opaque payload (see (c)). [here] is the
+   "Sheet!A1" text the reader stores as the origin of an error value. [anchor_of c] is the reader's
+   position context: Some a for a spill cell (it lies in the range of an array formula written
+   before it), None otherwise. *)
+Theorem C24_cell_types :
+  forall (num : Type) (show_num : num -> text) (read_num : text -> num) (formula : Type),
+  (forall n, read_num (show_num n) = n) ->
+  forall here (c : cell num formula),
+  evaluated num formula c = true -> texts_ok num formula c = true -> ids_ok num formula c = true ->
+  exists x, enc_cell num show_num formula c = Ok x /\
+            dec_cell num read_num formula (anchor_of num formula c) here x = canonical num formula here c.
+Proof. exact cell_types. Qed.
+Print Assumptions C24_cell_types.
+
+(* what [canonical] changes is exactly: #N/IMPL! -> #ERROR! (F01), a colliding text (F17), and the
+   origin / message of an error value (not stored in the file). Otherwise the cell comes back as is: *)
+Theorem C24_cell_types_exact :
+  forall (num : Type) (show_num : num -> text) (read_num : text -> num) (formula : Type),
+  (forall n, read_num (show_num n) = n) ->
+  forall here (c : cell num formula),
+  evaluated num formula c = true -> texts_ok num formula c = true -> ids_ok num formula c = true ->
+  exact num formula here c = true ->
+  exists x, enc_cell num show_num formula c = Ok x /\
+            dec_cell num read_num formula (anchor_of num formula c) here x = c.
+Proof. exact cell_types_exact. Qed.
+Print Assumptions C24_cell_types_exact.
+
+(* kinds that do not survive *)
+Theorem C24_cell_unevaluated_refuted :
+  forall (num : Type) (show_num : num -> text) (formula : Type) f s,
+  enc_cell num show_num formula (CFormula num formula f s (FUneval num)) = Panic.
+Proof. exact unevaluated_panics. Qed.
+Print Assumptions C24_cell_unevaluated_refuted.
+
+Theorem C24_cell_nimpl_refuted :
+  forall (num : Type) (show_num : num -> text) (read_num : text -> num) (formula : Type) here s,
+  exists x, enc_cell num show_num formula (CErr num formula Names.E_NIMPL s) = Ok x /\
+            dec_cell num read_num formula None here x = CErr num formula Names.E_ERROR s.
+Proof. exact nimpl_lost. Qed.
+Print Assumptions C24_cell_nimpl_refuted.
+
+Theorem C24_cell_error_origin_refuted :
+  forall (num : Type) (show_num : num -> text) (read_num : text -> num) (formula : Type) here f s o m,
+  exists x, enc_cell num show_num formula (CFormula num formula f s (FErr num Names.E_DIV o m)) = Ok x /\
+            dec_cell num read_num formula None here x = CFormula num formula f s (FErr num Names.E_DIV here (Names.display Names.E_DIV)).
+Proof. exact error_origin_lost. Qed.
+Print Assumptions C24_cell_error_origin_refuted.
+
+(* a spill cell the reader does not find inside an array range comes back as a value cell *)
+Theorem C24_cell_orphan_spill_refuted :
+  forall (num : Type) (show_num : num -> text) (read_num : text -> num) (formula : Type),
+  (forall n, read_num (show_num n) = n) ->
+  forall here s a n,
+  exists x, enc_cell num show_num formula (CSpill num formula s a (SNum num n)) = Ok x /\
+            dec_cell num read_num formula None here x = CNum num formula n s.
+Proof. exact orphan_spill_number. Qed.
+Print Assumptions C24_cell_orphan_spill_refuted.
+
+Theorem C24_cell_text_value_refuted :
+  forall (num : Type) (show_num : num -> text) (read_num : text -> num) (formula : Type) here f s,
+  exists x, enc_cell num show_num formula (CFormula num formula f s (FText num [95; 120; 48; 48; 52; 49; 1])) = Ok x /\
+            dec_cell num read_num formula None here x = CFormula num formula f s (FText num [65; 120; 48; 48; 48; 49; 95]).
+Proof. exact text_value_corrupted. Qed.
+Print Assumptions C24_cell_text_value_refuted.
+
+(* non-vacuity: a text-valued dynamic array anchor satisfies every premise of C24_cell_types_exact *)
+Example C24_cell_types_nonvacuous :
+  let c := CArray Z unit tt 3 2 2 Dynamic (FText Z [60; 38; 95]) in
+  evaluated Z unit c = true /\ texts_ok Z unit c = true /\ ids_ok Z unit c = true /\ exact Z unit [83; 33; 65; 49] c = true.
+Proof. vm_compute. repeat split; reflexivity. Qed.
+
+(* ================= (c) formula text ================= *)
+(* tokens: C09 at the xlsx printer mode, names from the compiled tables. Premises are C09's:
+   [image] (the tree is one the parser returns; leaf spelling conditions), [no_bad true] (none of the
+   three associative bad pairs 1+(2+3), 1+(2-3), 1&(2&3) left after the repair of the printer),
+   [lower_stable] (F62: user function names are printed in lower case). *)
+Theorem C24_formula_text :
+  forall lower env row col e,
+  image (xlsx_mode row col) (xlsx_names lower) env e = true ->
+  no_bad true e = true ->
+  lower_stable (xlsx_names lower) e = true ->
+  parse (xlsx_mode row col) (xlsx_names lower) env (print (xlsx_mode row col) (xlsx_names lower) e) = Some (e, []).
+Proof. exact formula_tokens_roundtrip. Qed.
+Print Assumptions C24_formula_text.
+
+(* C23's xlsx-name theorem in C09's terms: the side condition of [image] on built-in function names
+   holds for EVERY built-in function (Lambda is its own node kind) *)
+Theorem C24_formula_function_names :
+  forall lower f, 0 <= f < Z.of_nat Tables_c23.n_fn -> f <> Z.of_nat Tables_c23.fn_lambda ->
+  fun_name_ok (xlsx_names lower) f = true.
+Proof. exact xlsx_fun_names_ok. Qed.
+Print Assumptions C24_formula_function_names.
+
+(* characters: escaped on export, never decoded on import *)
+Theorem C24_formula_chars_partial :
+  forall t, forallb text_char_ok t = true -> formula_chars_ok t = true -> formula_text_read t = Ok t.
+Proof. exact formula_chars_partial. Qed.
+Print Assumptions C24_formula_chars_partial.
+
+Theorem C24_formula_chars_refuted :
+  formula_text_read [34; 1; 34] = Ok [34; 95; 120; 48; 48; 48; 49; 95; 34] /\
+  formula_text_read [34; 95; 120; 48; 48; 52; 49; 95; 34] = Ok [34; 95; 120; 48; 48; 53; 70; 95; 120; 48; 48; 52; 49; 95; 34].
+Proof. exact formula_chars_refuted. Qed.
+Print Assumptions C24_formula_chars_refuted.
